@@ -7,7 +7,7 @@ function = "Legalizer::exportPlacement, DetailedPlacement::exportPlacement, Glob
 variants = [
   {name = "legalizer", enforce = "Legalizer_exportPlacement", defines = ["H_LEG"]},
   {name = "detailed", enforce = "DetailedPlacement_exportPlacement", defines = ["H_DET"]},
-  {name = "global", enforce = "GlobalPlacer_exportPlacement", defines = ["H_GLOB"], replace = ["Circuit_placedWidth", "Circuit_placedHeight"], solver = "kissat"},
+  {name = "global", safety_tier = "thorough", enforce = "GlobalPlacer_exportPlacement", defines = ["H_GLOB"], replace = ["Circuit_placedWidth", "Circuit_placedHeight"], solver = "kissat"},
 ]
 assumptions = ["frame: the assigns clauses name only cellX_/cellY_/cellOrientation_ contents (global: only cellX_/cellY_), so a write to sizes, flags, polarities, nets, offsets, weights or rows inside these functions fails an assigns obligation; that no OTHER function of the stages writes a Circuit is the call-order unit (c10_order) plus const-correctness of the remaining code (compiler fact, not proved here)",
                "by-value copies of const vectors (cellLegalX() etc.) are lowered to aliases"]
